@@ -116,6 +116,41 @@ pub fn clamp_level(raw: f32) -> f32 {
     f32::from(SustainLevel::from(raw))
 }
 
+/// the time the property says is configured by `raw`: clamped to [1 ms, 20 s] (the numbers of the
+/// property, not the crate's constants); NaN becomes a bound - whichever the implementation picks
+pub fn spec_time(raw: f32) -> f32 {
+    if raw.is_nan() {
+        if clamp_time(raw) == 20.0 {
+            20.0
+        } else {
+            0.001
+        }
+    } else if raw < 0.001 {
+        0.001
+    } else if raw > 20.0 {
+        20.0
+    } else {
+        raw
+    }
+}
+pub fn spec_level(raw: f32) -> f32 {
+    if raw.is_nan() {
+        if clamp_level(raw) == 1.0 {
+            1.0
+        } else {
+            0.0
+        }
+    } else if raw < 0.0 {
+        0.0
+    } else if raw > 1.0 {
+        1.0
+    } else if raw == 0.0 {
+        0.0
+    } else {
+        raw
+    }
+}
+
 fn wanted(want: &str, prop: &str, clause: &str) -> bool {
     want == prop || want == "ALL" || (want == "C17" && prop == "C02" && clause == "late")
 }
@@ -166,7 +201,7 @@ pub fn execute(h: &History, want: &str, rep: &mut Report, mut trace: Option<&mut
 
     // ---- reference state ----
     let mut st = State::AtRest;
-    let (mut ta, mut td, mut tr) = (synth_utils::adsr::MIN_TIME_PERIOD_SEC, synth_utils::adsr::MIN_TIME_PERIOD_SEC, synth_utils::adsr::MIN_TIME_PERIOD_SEC);
+    let (mut ta, mut td, mut tr) = (0.001f32, 0.001f32, 0.001f32);
     let mut s: f32 = 1.0;
     let mut l0_a: f64 = 0.0; // level latched at the start of the latest attack
     let mut l0_r: f64 = 0.0; // level latched at the start of the latest release
@@ -246,22 +281,22 @@ pub fn execute(h: &History, want: &str, rep: &mut Report, mut trace: Option<&mut
                 match op {
                     Op::Attack(x) => {
                         call!(adsr.set_input(Input::Attack((*x).into())), i, None);
-                        ta = call!(clamp_time(*x), i, None);
+                        ta = call!(spec_time(*x), i, None);
                         c_set[0] += 1;
                     }
                     Op::Decay(x) => {
                         call!(adsr.set_input(Input::Decay((*x).into())), i, None);
-                        td = call!(clamp_time(*x), i, None);
+                        td = call!(spec_time(*x), i, None);
                         c_set[1] += 1;
                     }
                     Op::Release(x) => {
                         call!(adsr.set_input(Input::Release((*x).into())), i, None);
-                        tr = call!(clamp_time(*x), i, None);
+                        tr = call!(spec_time(*x), i, None);
                         c_set[2] += 1;
                     }
                     Op::Sustain(x) => {
                         call!(adsr.set_input(Input::Sustain((*x).into())), i, None);
-                        let ns = call!(clamp_level(*x), i, None);
+                        let ns = call!(spec_level(*x), i, None);
                         ds_since_tick += (ns as f64 - s as f64).abs();
                         if ns != s {
                             s_changed = true;
@@ -559,7 +594,7 @@ pub fn pick_time(r: &mut Rng, fs: f32, max_ticks: f64) -> f32 {
         _ => time_for_ticks(r.log_uniform(0.1, max_ticks.max(0.2)), fs),
     };
     // keep the history's tick budget: an in-range time that is too long for it is shortened
-    let tc = clamp_time(t);
+    let tc = spec_time(t);
     if (tc as f64) * (fs as f64) > max_ticks {
         time_for_ticks(max_ticks, fs)
     } else {
@@ -576,7 +611,7 @@ pub fn pick_level(r: &mut Rng) -> f32 {
 }
 
 fn phase_ticks(raw: f32, fs: f32) -> f64 {
-    (clamp_time(raw) as f64 * fs as f64).max(1.0)
+    (spec_time(raw) as f64 * fs as f64).max(1.0)
 }
 
 fn enough(n_nominal: f64) -> u64 {
@@ -692,6 +727,7 @@ pub fn directed(ctx: &Ctx, want: &str) -> Report {
         (48000.0, 0.01),
         (192000.0, 0.0011),
         (8000.0, 0.05),
+        (100.0, 15.0),
     ];
     if small {
         cfgs.truncate(9);
